@@ -385,10 +385,26 @@ func (f *vhgFile) WriteAt(p []byte, offset int64) (int, error) {
 	return len(p), nil
 }
 
-func (f *vhgFile) SetXattr(string, []byte, XattrFlags) error { return linux.ENOSYS }
-func (f *vhgFile) GetXattr(string) ([]byte, error)           { return nil, linux.ENOSYS }
-func (f *vhgFile) ListXattrs() ([]string, error)             { return nil, linux.ENOSYS }
-func (f *vhgFile) RemoveXattr(string) error                  { return linux.ENOSYS }
+func (f *vhgFile) SetXattr(string, []byte, XattrFlags) error {
+	id := f.enter("SetXattr", "")
+	defer f.exit(id, "SetXattr")
+	return nil
+}
+func (f *vhgFile) GetXattr(string) ([]byte, error) {
+	id := f.enter("GetXattr", "")
+	defer f.exit(id, "GetXattr")
+	return []byte("v"), nil
+}
+func (f *vhgFile) ListXattrs() ([]string, error) {
+	id := f.enter("ListXattrs", "")
+	defer f.exit(id, "ListXattrs")
+	return []string{"user.x"}, nil
+}
+func (f *vhgFile) RemoveXattr(string) error {
+	id := f.enter("RemoveXattr", "")
+	defer f.exit(id, "RemoveXattr")
+	return nil
+}
 
 func (f *vhgFile) FSync() error {
 	id := f.enter("FSync", "")
@@ -397,6 +413,8 @@ func (f *vhgFile) FSync() error {
 }
 
 func (f *vhgFile) Lock(int, LockType, LockFlags, uint64, uint64, string) (LockStatus, error) {
+	id := f.enter("Lock", "")
+	defer f.exit(id, "Lock")
 	return LockStatusOK, nil
 }
 
